@@ -46,6 +46,8 @@ SigLines    == <<[kind |-> "sig", ty |-> "tcp", text |-> PrintTcpSig(T1), n |-> 
 OtherLines  == <<[kind |-> "comment", raw |-> "; a comment = 1"],
                  [kind |-> "comment", raw |-> "   "],
                  [kind |-> "classes", items |-> <<"win", "unix">>, raw |-> "classes = win,unix"],
+                 \* class names are alphanumeric tokens: also those that begin with a digit ("9x", "2k")
+                 [kind |-> "classes", items |-> <<"nt", "9x", "unix2", "2k", "other">>, raw |-> "classes = nt,9x,unix2,2k,other"],
                  [kind |-> "ua_os", items |-> <<[k |-> "Linux", v |-> <<>>, br |-> FALSE], [k |-> "Windows", v |-> <<"NT">>, br |-> FALSE]>>, raw |-> "ua_os = Linux,Windows=NT"],
                  [kind |-> "sys", raw |-> "sys   = Linux"],
                  \* rule lines that cannot be read to their end (empty element, unclosed bracket, unbracketed value with a blank, trailing comma)
